@@ -842,6 +842,33 @@ def run(ctx):
                "; ".join("%s: %s" % (fn.path, describe(c)) for fn, c in bad) or "none")
     ctx.guard("R04.9", r9)
 
+    # ---------------------------------------------------------------- R04.10 children in document order
+    ctx.rule("R04.10", "the reader's state tables are append-only: `Fsm.states` (state ids are positions) and `State.states` (the children, whose "
+                       "order is the document order the algorithm's default entry and document-order sorts rely on) are changed by `push` only - "
+                       "never inserted into at a position, sorted, removed from or reordered")
+
+    def r10():
+        READ = {"contains", "iter", "len", "is_empty", "first", "last", "get", "get_mut", "iter_mut", "first_mut", "last_mut", "as_slice", "clone",
+                "binary_search", "binary_search_by", "binary_search_by_key", "to_vec", "starts_with", "ends_with", "as_ref", "deref", "into_iter",
+                "capacity", "reserve", "index", "index_mut", "eq", "ne", "fmt", "borrow", "borrow_mut", "as_mut", "deref_mut", "as_mut_slice"}
+        pushes, other = [], []
+        for fn in reader_fns(F):
+            for c in fn.walk():
+                if c.get("k") != "mcall":
+                    continue
+                fo = hirq.field_of(c["r"], NO_T)
+                if not fo or fo[1] != "states":
+                    continue
+                if c["m"] == "push":
+                    pushes.append((fn, c))
+                elif c["m"] not in READ:
+                    other.append((fn, c))
+        ctx.floor("R04.10", "push sites on a `states` table in the reader", len(pushes), 2)
+        ctx.ob("R04.10", "reader|state tables are append-only", not other, line_of(other[0][1]) if other else "",
+               "; ".join("%s: .states.%s(..)" % (fn.path, c["m"]) for fn, c in other) or "only push and reading methods")
+    ctx.guard("R04.10", r10)
+
+
 
 def wire_arm(a):
     p = a["pat"]
